@@ -245,13 +245,24 @@ func trunc(s string, n int) string {
 
 var rolePerm = [4]int{0, 1, 2, 3}
 
+func rolesOf(p [4]int, actor int) (out []int) {
+	for r, a := range p {
+		if a == actor {
+			out = append(out, r)
+		}
+	}
+	return
+}
+
 func c06() {
 	depth := 3
 	if run.Thorough() {
 		depth = 4
 	}
 	var jobs []*univ.Universe
-	perms := [][4]int{{0, 1, 2, 3}, {1, 0, 2, 3}, {2, 1, 0, 3}, {3, 1, 2, 0}}
+	// the last two maps are not permutations: the wallet's address plays two roles at once (renter and host of
+	// the same contract, sender and recipient of the same transfer)
+	perms := [][4]int{{0, 1, 2, 3}, {1, 0, 2, 3}, {2, 1, 0, 3}, {3, 1, 2, 0}, {1, 0, 0, 3}, {0, 0, 2, 3}}
 	for pi, p := range perms {
 		rolePerm = p
 		all, shared, _ := c02Universes()
@@ -262,7 +273,7 @@ func c06() {
 			if !run.Thorough() && i%6 != pi {
 				continue
 			}
-			u.Name = fmt.Sprintf("%s/wallet-as-role%d", u.Name, indexOf(p, 0))
+			u.Name = fmt.Sprintf("%s/wallet-as-roles%v", u.Name, rolesOf(p, 0))
 			jobs = append(jobs, u)
 		}
 	}
